@@ -118,8 +118,11 @@ def run(chk):
     exe = common.compile_harness("run_prp.cc")
     # keep a private copy of the executable: concurrent checks on scratch trees may drop the library cache
     bindir = os.path.join(common.BUILD, "c10-bin"); os.makedirs(bindir, exist_ok=True)
-    exe2 = os.path.join(bindir, os.path.basename(exe))
-    if not os.path.exists(exe2): shutil.copy(exe, exe2)
+    exe2 = os.path.join(bindir, os.path.basename(os.path.dirname(exe)) + "-" + os.path.basename(exe))
+    if not os.path.exists(exe2):
+        for old in os.listdir(bindir):
+            os.remove(os.path.join(bindir, old))
+        shutil.copy(exe, exe2 + ".tmp"); os.rename(exe2 + ".tmp", exe2)
     exe = exe2
 
     lines = []
